@@ -1,6 +1,7 @@
 package main
 
 import (
+	"os"
 	"bytes"
 	"fmt"
 	"reflect"
@@ -312,6 +313,45 @@ func runC02(o *Out) {
 		for _, op := range []string{"seq_insert", "seq_embed"} {
 			res := o.Run(op+"-random", true, op, seqSx(hs), itoa(i), seqSx(gs))
 			checkInsertSeq(o, op, hs, i, gs, res)
+		}
+	}
+	runC02CLI(o)
+}
+
+// gts insert / gts infix: the guest is placed exactly at every located 5'
+// position (input coordinates), one site and several, both strands.
+func runC02CLI(o *Out) {
+	if _, err := os.Stat(gtsBin); err != nil {
+		return
+	}
+	rec := mkRecord(gts.Linear, 60)
+	text := gbText(rec)
+	parsed, ok := parseRecords(text)
+	if !ok || len(parsed) != 1 {
+		o.Violate("generated-record-unreadable", "mkRecord", "")
+		return
+	}
+	plain := stripInfo(parsed[0])
+	guestFa := []byte(">guest\nNNNN\n")
+	for _, ls := range []string{"1", "7", "60", "13..20", "complement(12..18)", "gene", "CDS", "misc_feature", "regulatory", "CDS/gene=b", "CDS@$"} {
+		rr, ok := regionsOf(ls, plain)
+		if !ok {
+			continue
+		}
+		for _, embed := range []bool{false, true} {
+			args := []string{"insert", ls, "@NNNN"}
+			iargs := []string{"infix", ls, "file:" + hx(text)[1:]}
+			if embed {
+				args = append(args, "-e")
+				iargs = append(iargs, "-e")
+			}
+			lit := gts.New(nil, nil, []byte("NNNN"))
+			res := o.Run("cli-insert", true, "plan_insert", argHex(args...), hx(text), "x", seqSx(plain), regListSx(rr), seqSx(lit), b2s(embed))
+			checkInsertPlan(o, "insert "+ls, plain, rr, []byte("NNNN"), res)
+			gparsed, _ := parseRecords(guestFa)
+			gplain := gts.New(nil, gparsed[0].Features(), gparsed[0].Bytes())
+			res2 := o.Run("cli-infix", true, "plan_insert", argHex(iargs...), hx(guestFa), "x", seqSx(plain), regListSx(rr), seqSx(gplain), b2s(embed))
+			checkInsertPlan(o, "infix "+ls, plain, rr, []byte("NNNN"), res2)
 		}
 	}
 }
